@@ -6,7 +6,8 @@
   §1  `KStep'`: the steps of Proofs.Keys plus the three further things the conversation really does to the key
       context (none of them is `KStep.recv`/`send`/`reject`):
         * `recvNoRot`  — a data message passed all guards (counter stored, receiving MAC key recorded) and then
-                         `rotateOurKeys` could not draw its new key: nothing rotates, the call returns the error;
+                         `rotateOurKeys` could not draw its new key: nothing rotates, the TLVs are acted upon (repaired
+                         code: a disconnect TLV is a `SessionBoundary` as after a rotation), the call returns the error;
         * `replay`     — a message with a stale counter is refused, but `findCounter` has created the (zero) counter
                          entry of its pair;
         * `sendAbort`  — `genDataMsgWithFlag` recorded the MAC key and bumped the counter, then `messageHeader` threw
@@ -946,20 +947,32 @@ theorem tailRest_k (K : Crypto) (tlvs : List Tlv) (x : Bytes) : Stable (KRel K) 
 
 /-! ## 8. receiving a data message -/
 
-/-- `processDataMessageTail`: the rotation part, then `tailRest` (TLVs and reply).  `np` is what the randomness
-    read for the new DH key returned (`none` also when no read was made: `rotateOurKeys` ignores it then) -/
+/-- what is left of `processDataMessageTail` when the rotation has failed (repaired code): the TLVs of the message
+    are acted upon - their replies are dropped - and then the rotation error is reported -/
+def tailFailed (K : Crypto) (tlvs : List Tlv) (extraKey : Bytes) (e : Err) : M (Option Bytes) := do
+  let _ ← processTLVs K tlvs extraKey
+  throw e
+
+theorem tailFailed_k (K : Crypto) (tlvs : List Tlv) (x : Bytes) (e : Err) : Stable (KRel K) (tailFailed K tlvs x e) := by
+  unfold tailFailed
+  kstable [processTLVs_k]
+
+/-- `processDataMessageTail`: the rotation part, then `tailRest` (TLVs and reply) - or, when the rotation failed for
+    lack of randomness (keys unchanged by it, their key not rotated), `tailFailed` (TLVs, then the error).  `np` is
+    what the randomness read for the new DH key returned (`none` also when no read was made: `rotateOurKeys`
+    ignores it then) -/
 theorem tail_run (K : Crypto) (dm : DataMsg) (tlvs : List Tlv) (x : Bytes) (t : MState) :
     ∃ np env' mm',
       runM (processDataMessageTail K dm tlvs x) t =
         match (t.conv.keys.rotateOurKeys K dm.recipientKeyID np).2 with
-        | some e => .ok (.error e,
+        | some e => runM (tailFailed K tlvs x e)
             { t with conv := { t.conv with keys := (t.conv.keys.rotateOurKeys K dm.recipientKeyID np).1 },
-                     env := env', mismatch := mm' })
+                     env := env', mismatch := mm' }
         | none => runM (ConvData.tailRest K tlvs x)
             { t with conv := { t.conv with keys :=
                         ((t.conv.keys.rotateOurKeys K dm.recipientKeyID np).1).rotateTheirKey dm.senderKeyID dm.y },
                      env := env', mismatch := mm' } := by
-  unfold processDataMessageTail ConvData.tailRest
+  unfold processDataMessageTail ConvData.tailRest tailFailed
   by_cases hro : t.conv.keys.rotatesOur dm.recipientKeyID = true
   · obtain ⟨np, env', mm', hr, -, -⟩ := randRead_run 40 t
     refine ⟨np, env', mm', ?_⟩
@@ -967,15 +980,25 @@ theorem tail_run (K : Crypto) (dm : DataMsg) (tlvs : List Tlv) (x : Bytes) (t : 
     cases hk : t.conv.keys.rotateOurKeys K dm.recipientKeyID np with
     | mk k1 e =>
       cases e with
-      | none => simp only [runM_bind, runM_modc, bindM_ok, runM_pure]
-      | some e => simp only [runM_bind, runM_modc, bindM_ok, runM_throw, bindM_error]
+      | none => simp only [runM_bind, runM_modc, bindM_ok, runM_pure, Option.isNone_none, ↓reduceIte]
+      | some e =>
+        simp only [runM_bind, runM_modc, bindM_ok, runM_pure, runM_throw, Option.isNone_some, Bool.false_eq_true,
+          ↓reduceIte]
+        cases runM (processTLVs K tlvs x) _ with
+        | panic p => rfl
+        | ok v => obtain ⟨v, u⟩ := v; cases v <;> rfl
   · refine ⟨none, t.env, t.mismatch, ?_⟩
     simp only [runM_bind, runM_getc, bindM_ok, hro, Bool.false_eq_true, ↓reduceIte, runM_pure]
     cases hk : t.conv.keys.rotateOurKeys K dm.recipientKeyID none with
     | mk k1 e =>
       cases e with
-      | none => simp only [runM_bind, runM_modc, bindM_ok, runM_pure]
-      | some e => simp only [runM_bind, runM_modc, bindM_ok, runM_throw, bindM_error]
+      | none => simp only [runM_bind, runM_modc, bindM_ok, runM_pure, Option.isNone_none, ↓reduceIte]
+      | some e =>
+        simp only [runM_bind, runM_modc, bindM_ok, runM_pure, runM_throw, Option.isNone_some, Bool.false_eq_true,
+          ↓reduceIte]
+        cases runM (processTLVs K tlvs x) _ with
+        | panic p => rfl
+        | ok v => obtain ⟨v, u⟩ := v; cases v <;> rfl
 
 
 theorem rotateOurKeys_err {K : Crypto} {k : Keys} {r : Nat} {np : Option Bytes} {e : Err}
@@ -1030,10 +1053,11 @@ theorem tail_from_accept (K : Crypto) (dm : DataMsg) (tlvs : List Tlv) (x : Byte
   cases he : (t.conv.keys.rotateOurKeys K dm.recipientKeyID np).2 with
   | some e =>
     rw [he] at h
-    simp only [Res.ok.injEq, Prod.mk.injEq] at h
+    simp only at h
     obtain ⟨hr, hk⟩ := rotateOurKeys_err he
-    refine ⟨s', ?_, by rw [← h.2], Frame.refl _⟩
-    rw [← h.2]
+    refine ⟨{ t with
+        conv := { t.conv with keys := (t.conv.keys.rotateOurKeys K dm.recipientKeyID np).1 }
+        env := env', mismatch := mm' }, ?_, rfl, tailFailed_k K tlvs x e _ r s' h⟩
     show k.AcceptedInto K _ _ n (t.conv.keys.rotateOurKeys K dm.recipientKeyID np).1
     rw [hk, ht]
     refine .inr ⟨?_, rfl⟩
